@@ -405,6 +405,59 @@ def do_service(world, sid, by):
         world.instances[sid] = inst
         LOG("return", op="service", pid="svc:%s" % sid, by=by, gen=world.gen)
         return
+    if sspec.get("shipped") in ("Stepwise", "Linear", "Buffer"):
+        # other trio services cobald ships: the rule they evaluate and the pool they read and write report where that happens
+        from cobald.interfaces import Pool
+
+        notes = [0]
+
+        def note():
+            notes[0] += 1
+            if notes[0] <= 40:
+                LOG("step", pid="svc:%s" % sid, gen=world.gen, n=-2, inside_section=world.overlap.get("trio", 0), **context_facts())
+
+        class Site(Pool):
+            supply, allocation = 2, 0.75
+
+            def __init__(self):
+                self._demand = 4
+
+            @property
+            def utilisation(self):
+                note()
+                return 0.75
+
+            @property
+            def demand(self):
+                return self._demand
+
+            @demand.setter
+            def demand(self, value):
+                note()
+                self._demand = value
+
+        LOG("call", op="service", pid="svc:%s" % sid, by=by, gen=world.gen)
+        if sspec["shipped"] == "Stepwise":
+            from cobald.controller.stepwise import stepwise
+
+            @stepwise
+            def rule(pool, interval):
+                note()
+                return pool.demand + 1 if pool.demand < 50 else None
+
+            inst = rule(Site(), interval=sspec.get("interval", 0.05))
+        elif sspec["shipped"] == "Linear":
+            from cobald.controller.linear import LinearController
+
+            inst = LinearController(Site(), low_utilisation=0.9, high_allocation=0.95, rate=10, interval=sspec.get("interval", 0.05))
+        else:
+            from cobald.decorator.buffer import Buffer
+
+            inst = Buffer(Site(), window=sspec.get("interval", 0.05))
+            inst.demand = 7
+        world.instances[sid] = inst
+        LOG("return", op="service", pid="svc:%s" % sid, by=by, gen=world.gen)
+        return
     cls = service_class(sspec["flavour"], sspec.get("shape", "plain"), sspec.get("base_flavour"))
     LOG("call", op="service", pid="svc:%s" % sid, by=by, gen=world.gen)
     if sspec.get("init_blocks"):
@@ -503,7 +556,8 @@ def common_op(world, pspec, op):
     pid = pspec["id"]
     kind = op[0]
     if kind == "adopt":
-        do_adopt(world, op[1], by=pid)
+        # ["adopt", id, "strict"]: the payload does not guard the call - whatever adopt raises hits the payload's own code
+        do_adopt(world, op[1], by=pid, strict=len(op) > 2 and op[2] == "strict")
     elif kind == "adopt_same":
         do_adopt(world, op[1], by=pid, same=True)
     elif kind == "execute":
@@ -886,6 +940,13 @@ def dress(inner, how, prefix=None):
         return wrapper
     if how == "partial":
         return functools.partial(inner)
+    if how == "nomodule":
+        # a callable that belongs to no module, like the bound methods of built-in objects (list.append, queue.put)
+        def detached(*args, **kwargs):
+            return inner(*args, **kwargs)
+
+        detached.__module__ = None
+        return detached
     coroutine = asyncio.iscoroutinefunction(inner)
 
     class Job:
@@ -917,7 +978,7 @@ def dress(inner, how, prefix=None):
     raise AssertionError("unknown kind of callable %r" % (how,))
 
 
-CALLABLE_KINDS = ["function", "lambda", "wrapped", "partial", "object", "method", "prefixed", "marked", "unhashable"]
+CALLABLE_KINDS = ["function", "lambda", "wrapped", "partial", "object", "method", "prefixed", "marked", "unhashable", "nomodule"]
 
 
 # ------------------------------------------------------------------------------ driver thread
